@@ -37,12 +37,18 @@ type c19Params struct {
 	// WallAhead: the wall clock of the run reads 2031, AFTER the time the configurations report (2030); normally
 	// it reads 2024, before it. Timers and deadlines belong to the wall clock, whichever way the two differ.
 	WallAhead bool `json:"wall_ahead,omitempty"`
+	// MinuteEdge: the configured clocks read hh:mm:59.6 when the run starts, so that a retransmission after the
+	// first timeout falls into the next minute
+	MinuteEdge bool `json:"minute_edge,omitempty"`
+	// Declined (resumed mode): the client has narrowed its suites since the session was made, so that the server
+	// finds the offered session, declines to resume it and a full handshake follows
+	Declined bool `json:"declined,omitempty"`
 }
 
 func (c19) ID() string    { return "C19" }
 func (c19) Level() string { return "fault_enumeration" }
 func (c19) Rule() string {
-	return "real DTLCP client and server under virtual time on a network that applies a plan of at most k faults to the datagrams of the handshake and is reliable afterwards. Fault kinds per datagram: drop, duplicate, short delay (overtaken by the next datagram), long delay (past the retransmission timeout). k=0 (control: no timer may expire), all k=1 plans, all k=2 plans over the datagrams of the fault-free handshake, seeded k=3 plans (thorough), for full and resumed handshakes, suites, with client authentication; the schedule (including the order of simultaneous timer expiries) comes from the seed. Additionally, with configured timers whose maximum is not initial*2^n (1 s..1.5 s, 0.4 s..1 s, 0.6 s..0.6 s), the same flight lost two and three times in a row; single losses and duplications also with the wall clock AFTER the configured time (normally it is before it). Oracle: both endpoints complete within the sum of the first k values of the retransmission schedule (initial timeout doubling up to the configured maximum) plus slack of virtual time, agree on all negotiated parameters, and an echo in both directions works. distinct = distinct (mode, plan); non-trivial = every planned fault hit a datagram"
+	return "real DTLCP client and server under virtual time on a network that applies a plan of at most k faults to the datagrams of the handshake and is reliable afterwards. Fault kinds per datagram: drop, duplicate, short delay (overtaken by the next datagram), long delay (past the retransmission timeout). k=0 (control: no timer may expire), all k=1 plans, all k=2 plans over the datagrams of the fault-free handshake, seeded k=3 plans (thorough), for full and resumed handshakes, suites, with client authentication; the schedule (including the order of simultaneous timer expiries) comes from the seed. Additionally, with configured timers whose maximum is not initial*2^n (1 s..1.5 s, 0.4 s..1 s, 0.6 s..0.6 s), the same flight lost two and three times in a row; single losses and duplications also with the wall clock AFTER the configured time (normally it is before it), single losses with the configured clock just below a full minute, and single losses in a full handshake that follows a declined resumption. Oracle: both endpoints complete within the sum of the first k values of the retransmission schedule (initial timeout doubling up to the configured maximum) plus slack of virtual time, agree on all negotiated parameters, and an echo in both directions works. distinct = distinct (mode, plan); non-trivial = every planned fault hit a datagram"
 }
 func (c19) Components() (real, stub []string) {
 	return []string{"dtlcp client+server (instrumented): flights, retransmission, back-off, dwell, replay window"},
@@ -110,6 +116,14 @@ func c19List(tier string) []c19Params {
 				for _, s := range slots {
 					for _, k := range []string{simnet.FDrop, simnet.FDup} {
 						out = append(out, c19Params{Suite: m.suite, Auth: m.auth, Resumed: resumed, WallAhead: true, Plan: []simnet.DFault{c19Fault(s.dir, s.name, k)}})
+					}
+					out = append(out, c19Params{Suite: m.suite, Auth: m.auth, Resumed: resumed, MinuteEdge: true, Plan: []simnet.DFault{c19Fault(s.dir, s.name, simnet.FDrop)}})
+				}
+				if resumed {
+					// the offered session is found but not resumed (the client no longer enables its suite): the
+					// handshake that follows is a full one, with the datagrams of a full handshake
+					for _, s := range c19Slots(false) {
+						out = append(out, c19Params{Suite: m.suite, Auth: m.auth, Resumed: true, Declined: true, Plan: []simnet.DFault{c19Fault(s.dir, s.name, simnet.FDrop)}})
 					}
 				}
 				for _, s := range slots {
@@ -280,9 +294,22 @@ func c19RunPlan(c *Case, src *vs.Src, p *c19Params, plan []simnet.DFault, r *Res
 		conns = 2
 	}
 	var unf []string
+	ConfigSkew = 0
+	if p.MinuteEdge {
+		ConfigSkew = 59600 * time.Millisecond
+	}
+	defer func() { ConfigSkew = 0 }()
 	for conn := 0; conn < conns; conn++ {
+		if p.Declined && conn == conns-1 {
+			// the other CBC/GCM suite of the same key exchange, enabled on the server all along
+			other := map[uint16]uint16{ECC_GCM: ECC_CBC, ECC_CBC: ECC_GCM, ECDHE_GCM: ECDHE_CBC, ECDHE_CBC: ECDHE_GCM}[p.Suite]
+			cc2, sc2 := *cc, *sc
+			cc2.Suites, sc2.Suites = []uint16{other}, []uint16{p.Suite, other}
+			cc, sc = &cc2, &sc2
+		}
 		w := NewWorld(c.Seed+uint64(conn), src)
 		w.K.MaxElapsed = 400 * time.Second
+		w.K.MaxSteps = 60000 // a handshake with three faults takes a few hundred steps; two ends answering each other for ever are cut short here
 		if p.WallAhead {
 			w.K.SetClock(time.Date(2031, 3, 1, 0, 0, 0, 0, time.UTC))
 		}
@@ -377,12 +404,12 @@ func (c19) Run(c *Case, src *vs.Src) *Result {
 	}
 	r.Sample = p
 	mode := "full"
-	if p.Resumed {
+	if p.Resumed && !p.Declined {
 		mode = "resumed"
 	}
 	sigp := "C19 " + mode
 	res := c19RunPlan(c, src, p, p.Plan, r, sigp)
-	r.Key = hashKey(p.Suite, p.Auth, p.Resumed, p.InitMs, p.MaxMs, p.WallAhead, planSig(p.Plan))
+	r.Key = hashKey(p.Suite, p.Auth, p.Resumed, p.InitMs, p.MaxMs, p.WallAhead, p.MinuteEdge, p.Declined, planSig(p.Plan))
 	if res.setup != "" {
 		r.Violate("setup", sigp+" setup-failed", "%s", res.setup)
 		return r
